@@ -50,9 +50,17 @@ Clauses(r) ==
   C05_MaskExact      |-> \A i \in 1..np : PassMaskOK(r, r.passes[i]),
   C05_MaskInSegment  |-> \A i \in 1..np :
                             r.passes[i].mask \subseteq SegIdx(r.seg, r.segreq),
-  C05_PassStructure  |-> /\ np <= Len(plan)
-                         /\ \A i \in 1..np : r.passes[i].kind = plan[i]
-                         /\ (r.success => complete),
+  \* (for contact-point-relative ranges the statement asks for an estimate
+  \* on the whole segment followed by passes anchored at the previous
+  \* contact point; HOW MANY of them is the implementation's business)
+  C05_PassStructure  |->
+      IF r.mode = "rel"
+      THEN /\ (np > 0 => r.passes[1].kind = "whole")
+           /\ \A i \in 2..np : r.passes[i].kind = "anchored"
+           /\ (r.success => np >= 2)
+      ELSE /\ np <= Len(plan)
+           /\ \A i \in 1..np : r.passes[i].kind = plan[i]
+           /\ (r.success => complete),
   C05_FirstIsRequested |->
       (r.mode = "abs" /\ np > 0) => (r.passes[1].lo = r.req_lo /\ r.passes[1].hi = r.req_hi
                            /\ r.passes[1].zero = r.req_zero),
